@@ -569,6 +569,9 @@ class RowArr(_Generic):
         raise Unsupported(f"reshape of a per-row array to {shape}")
     def __sym_len__(self): return self.space.n
     def copy(self): return self._new(self.vals)
+    def __sym_isinstance__(self, ts):
+        import numpy as np
+        return any(t is np.ndarray for t in ts)
     def astype(self, t, *a, **k):
         if getattr(t, "__name__", "") in ("float32", "single"):
             r = self._new([to_f32(v) for v in self.vals])
@@ -611,6 +614,13 @@ class RowArr(_Generic):
                 _same_space(self.space, v.space, "column assignment")
                 v = v.val
             self.vals[key[1]] = v
+            return
+        if (isinstance(key, tuple) and len(key) == 2 and isinstance(key[0], slice) and key[0] == slice(None) and isinstance(key[1], list)
+                and all(isinstance(c, int) for c in key[1]) and isinstance(v, RowArr) and v.k == len(key[1])):
+            _same_space(self.space, v.space, "column assignment")
+            new = list(v.vals)  # the right-hand side was evaluated before the store (numpy fancy indexing copies)
+            for c, x in zip(key[1], new):
+                self.vals[c] = x
             return
         raise Unsupported(f"RowArr[{key!r}] = ...")
     def row_at(self, r):
@@ -731,6 +741,21 @@ class _ILoc:
         raise Unsupported("iloc assignment form")
 
 
+class ColIndex(list):
+    """column labels of a table with a concrete column order (pandas.Index protocol subset)"""
+    def isin(self, values):
+        vs = list(values)
+        return [bool(c in vs) for c in self]
+    def tolist(self): return list(self)
+    def to_list(self): return list(self)
+    @property
+    def values(self): return list(self)
+    def get_loc(self, k):
+        if k not in self:
+            raise ModelRaise("KeyError", str(k))
+        return self.index(k)
+
+
 class SiteList(_Generic):
     """a Python list filled inside a generic-iteration loop with the loop's own index (idx_list.append(i)):
     membership of the generic row is the disjunction of the path conditions at the append sites"""
@@ -768,7 +793,7 @@ class GFrame(_Generic):
     def columns(self):
         if self.perm is not None:
             return PermCols(self)
-        return list(self.cols)
+        return ColIndex(self.cols)
 
     @columns.setter
     def columns(self, names):
@@ -869,6 +894,12 @@ class GFrame(_Generic):
             return GVec(self.row[c], self.space, self.present, "series", c)
         if isinstance(c, (list, tuple)) or type(c).__name__ == "ndarray":
             cs = list(c)
+            if cs and all(isinstance(k, bool) or type(k).__name__ == "bool_" for k in cs):  # boolean column mask: frame order
+                if len(cs) != len(self.cols):
+                    raise ModelRaise("IndexError", "Boolean index has wrong length")
+                if self.perm is not None:
+                    raise Unsupported("boolean column mask on a frame with symbolic column order")
+                cs = [k for k, b in zip(self.cols, cs) if b]
             for k in cs:
                 if k not in self.row:
                     raise ModelRaise("KeyError", str(k))
